@@ -113,9 +113,44 @@ def _gen_malformed(rng, tier):
                "sched": {"seed": rng.randrange(1 << 30)}, "horizon": 100.0}
 
 
+def _gen_cut_by_eof(rng, tier):
+    """A pipeline whose last message is aborted by the client itself: it half-closes in the middle of the head or of the body.  Like a
+    malformed message: the requests before it are answered, the aborted one gets an error response announcing close, the connection closes."""
+    for i in range(60 if tier == "quick" else 1500):
+        nreq = rng.choice([1, 2, 3])
+        bad = nreq - 1
+        base = 5700000 + i * 10
+        datas, by_tag = [], {}
+        for k in range(nreq):
+            tag = base + k
+            by_tag[str(tag)] = _app(rng, tag, "after")
+            if k == bad:
+                how = rng.choice(["cl_body", "chunked_body", "head", "head_fields"])
+                if how == "cl_body":
+                    datas.append(b"POST /t%d HTTP/1.1\r\nHost: h\r\nContent-Length: 10\r\n\r\n" % tag + b"x" * rng.choice([0, 4, 9]))
+                elif how == "chunked_body":
+                    datas.append(b"POST /t%d HTTP/1.1\r\nHost: h\r\nTransfer-Encoding: chunked\r\n\r\n" % tag + rng.choice([b"", b"5\r\nab", b"3\r\nabc\r\n", b"3\r\nabc\r\n0\r\n"]))
+                elif how == "head":
+                    datas.append(b"GET /t%d HTT" % tag)
+                else:
+                    datas.append(b"GET /t%d HTTP/1.1\r\nHost: h\r\nX-Cut: ye" % tag)
+            else:
+                datas.append(b"GET /t%d HTTP/1.1\r\nHost: h\r\n\r\n" % tag)
+        blob = b"".join(datas)
+        seg = rng.choice(["one", "k", "per_request", "bytes"])
+        client = ([["feed_split", blob, [len(blob)]]] if seg == "one" else [["feed_split", blob, G.gen_splits(rng, len(blob), "k")]] if seg == "k"
+                  else [["feed_split", blob, G.gen_splits(rng, len(blob), "bytes")]] if seg == "bytes" and len(blob) < 400
+                  else [["feed", d] for d in datas]) + [["settle"], ["eof"], ["settle"]]
+        yield {"family": "cut-by-eof.%s.%s" % (how, seg), "backends": ["asyncio", "trio"], "config": {"keep_alive_timeout": 5000}, "conn": {},
+               "apps": {"default": [["recv_until_end"], ["respond", 200, [], b"d"]], "by_tag": by_tag}, "client": client,
+               "truth": {"kind": "malformed", "bad": bad, "tags": [base + k for k in range(nreq + 1)], "cut": how},
+               "sched": {"seed": rng.randrange(1 << 30)}, "horizon": 100.0}
+
+
 def gen(rng, tier):
     yield from _gen_aborted(rng, tier)
     yield from _gen_malformed(rng, tier)
+    yield from _gen_cut_by_eof(rng, tier)
     for i in range(N_CASES[tier]):
         nreq = rng.choice([1, 2, 2, 3, 4, 6])
         maxreq = rng.choice([1, 2, 3, 1000, 1000, 1000])
@@ -198,8 +233,8 @@ def check(case, obs, tally):
         toks = [x.strip().lower() for v in (mine.header(b"connection") if mine else []) for x in v.split(b",")]
         if mine is None or not (400 <= mine.status < 500) or b"close" not in toks:
             out.append({"clause": "malformed-announces-close", "sig": "C06.malformed/no-error-response-announcing-close",
-                        "detail": "request #%d has a valid head and a malformed body; the client got %r (headers %r)" % (
-                            bad + 1, mine.status if mine else None, mine.headers if mine else None)})
+                        "detail": "request #%d is malformed / cut short by the client's EOF (%s); the client got %r (headers %r)" % (
+                            bad + 1, t.get("cut", "malformed body"), mine.status if mine else None, mine.headers if mine else None)})
         if obs.closed_at is None:
             out.append({"clause": "malformed-announces-close", "sig": "C06.malformed/not-closed", "detail": "connection still open at quiescence"})
         later = [e for e in obs.app_events(kind="start") if e[4]["scope"].get("path") == "/t%d" % t["tags"][bad + 1]]
